@@ -10,7 +10,7 @@ import textgen
 THEOREMS = ["C19_text_prefix", "C19_text_fault_reported", "C19_binary_failure_permanent", "C19_binary_prefix_chunks", "C19_binary_prefix", "C19_binary_prefix_lst", "C19_binary_fault_reported", "C19_binary_fault_detected", "C19_binary_budget_respected", "C19_binary_append_only", "C19_binary_fault_recorded",
             "C19_bufio_op_refines", "C19_bufio_chunk_independent", "C19_bufio_chunk_independent_ops", "C19_bufio_failure_never_eof",
             "C19_bufio_failure_reported", "C19_bufio_ex",
-            "C19_binreader_input_init", "C19_binreader_read_byte", "C19_binreader_read_full", "C19_binreader_discard", "C19_binreader_peek", "C19_binreader_ex"]
+            "C19_binreader_input_init", "C19_binreader_read_byte", "C19_binreader_read_full", "C19_binreader_discard", "C19_binreader_peek", "C19_binreader_ex", "C19_tokenizer_read_is_client", "C19_tokenizer_read_chunk_independent", "C19_tokenizer_crlf_ex"]
 EXTRA_MODULES = ["C19bufio"]
 LEVEL = "other"
 EXPLANATION = ("read side: documents (binary and text) x chunkings (every single split point, byte-at-a-time, random "
